@@ -64,7 +64,7 @@ def describe(v, depth=0):
 def observe_code(code):
     log = []
     buf = io.StringIO()
-    ns = {'emit': lambda v: (log.append(repr(v)), True)[1], '__name__': 'behaveprog'}
+    ns = {'emit': lambda *a: (log.append(repr(a[0] if len(a) == 1 else a)), True)[1], '__name__': 'behaveprog'}
     ns['emit'].k = 0
     old = sys.stdout
     sys.stdout = buf
